@@ -110,6 +110,9 @@ def run(ctx):
     check_wrappers(ctx, rs, sc, S, L_BFGS_B, minimize, maximize, LS)
     check_malformed(ctx, rs, CGLS, PCGLS, FISTA)
     check_generic(ctx, rs, sc, cuqi, CGLS, PCGLS, FISTA, LM, LS, L_BFGS_B, minimize, maximize, ProximalL1)
+    # session-3 extension: the glue around the recurrences (Model/C16_glue.lean); own RNG stream so the cases above are unchanged
+    from harness.props import c16_glue
+    c16_glue.check_glue(ctx, np.random.RandomState(ctx.seed + 1603), sc, cuqi, S, sys.modules[__name__])
 
 
 # ----------------------------------------------------------------------------- projections / prox
